@@ -11,12 +11,12 @@ HBooks == {
   [items |-> << <<It(2, 2, "sr", 1), It(3, 2, "s", 2), It(2, 3, "z", 3), It(4, 4, "isr", 4), It(1, 5, "b", 5), It(5, 2, "sr", 6)>>,
                  <<It(27, 1, "n", 7), It(1, 3, "se", 8), It(2, 3, "sr", 9), It(28, 1, "e", 10)>> >>,
    mseq  |-> << << <<2, 2, 3, 3>> >>, << <<27, 1, 28, 1>> >> >>, nv |-> 10,
-   lay   |-> Lay(TRUE, FALSE, <<3, 1, 4, 2>>, "emptyMid")],
+   lay   |-> LayV(Lay(TRUE, FALSE, <<3, 1, 4, 2>>, "emptyMid"), "pipe")],
   [items |-> << <<It(3, 3, "str", 1)>>,
                  <<It(1, 1, "s", 2), It(2, 1, "fn", 3), It(3, 1, "sr", 4), It(4, 2, "sr", 5)>>,
                  <<It(2, 2, "z", 6), It(3, 4, "e", 7), It(2, 4, "is", 8)>> >>,
    mseq  |-> << <<>>, << <<1, 1, 3, 1>> >>, << <<2, 4, 2, 5>>, <<3, 4, 4, 4>> >> >>, nv |-> 8,
-   lay   |-> Lay(FALSE, FALSE, <<2, 1, 3, 4>>, "richFirst")] }
+   lay   |-> LayV(Lay(FALSE, FALSE, <<2, 1, 3, 4>>, "richFirst"), "nl")] }
 
 C(op, sel, hdr, delim, meta, toc) == [op |-> op, sel |-> sel, hdr |-> hdr, delim |-> delim, meta |-> meta, toc |-> toc]
 HCalls == { C("text", <<>>, FALSE, "tab", FALSE, FALSE), C("textopt", <<2, 1>>, TRUE, "comma", FALSE, FALSE),
